@@ -91,12 +91,18 @@ def explain(job, docs_by_label):
 def stage_b(run, tier, rng):
     from gen import schemas as GS, docs as GD
     jobs = []
-    for n in (1, 2, 3):
+    full3 = GG.family_size(3, GG.OBJ_KINDS_FULL)
+    for n in (1, 2):
         jobs += [("fam", n, "full", i) for i in range(GG.family_size(n, GG.OBJ_KINDS_FULL))]
+    if tier == "quick":
+        jobs += [("fam", 3, "small", i) for i in range(GG.family_size(3, GG.OBJ_KINDS_SMALL))]
+        jobs += [("fam", 3, "full", rng.randrange(full3)) for _ in range(8000)]
+    else:
+        jobs += [("fam", 3, "full", i) for i in range(full3)]
     size4 = GG.family_size(4, GG.OBJ_KINDS_SMALL)
-    n4 = 12000 if tier == "quick" else 250000
+    n4 = 6000 if tier == "quick" else 150000
     jobs += [("fam", 4, "small", rng.randrange(size4)) for _ in range(n4)]
-    nrand = 3000 if tier == "quick" else 40000
+    nrand = 2500 if tier == "quick" else 30000
     jobs += [("rand", rng.randrange(1 << 40)) for _ in range(nrand)]
     docs_by_label = {}
     for l, d in GS.atlas_docs():
@@ -122,7 +128,7 @@ def stage_b(run, tier, rng):
         terms.append(term); meta.append((job, info))
     bad = []
     for k in range(0, len(terms), 120000):
-        bad += [k + i for i in run_cases(HDR, terms[k:k + 120000], shard=2500, jobs=14)]
+        bad += [k + i for i in run_cases(HDR, terms[k:k + 120000], shard=400, jobs=14)]
     print("stage B: %d terms evaluated in %.1fs, %d mismatches" % (len(terms), time.time() - t0, len(bad)))
     for job, info in meta:
         kind = job[0] if job[0] != "fam" else f"fam{job[1]}"
@@ -133,7 +139,8 @@ def stage_b(run, tier, rng):
                 "what": "Graph.build_schemas on the abstracted graph == real build_schemas: classes_by_reference keys, classes_by_name keys, ordered errors "
                         "(phase, unit, category, removal list as a set), the dependencies relation; and wf_graph of the abstraction"}
     run.exhaustive = True
-    run.extra["stageB_family"] = {"n<=3": "exhaustive (5 object edge kinds, item, union member, wrapper; every target incl. self and forward; every failure position)",
+    run.extra["stageB_family"] = {"n<=2": "exhaustive (5 object edge kinds, item, union member, wrapper; every target incl. self and forward; every failure position)",
+                                  "n=3": ("exhaustive with object edge kinds {prop, allof} + 8000 sampled of the full family" if tier == "quick" else "exhaustive, full family"),
                                   "n=4": f"{n4} sampled of {size4}", "random_graphs": nrand, "documents": len(docs_by_label)}
     for i in bad[:6]:
         try:
